@@ -416,6 +416,21 @@ Definition new_upstream (is_ip : str -> bool) (addr dial_addr : str) (socks : bo
   | _ => None
   end.
 
+(** ** Every place where the created upstream dials
+
+    The plain udp upstream has two: dialUdpPipeline (the UDP socket) and
+    dialTcpNetConn (the TCP connection used to repeat a query whose UDP reply
+    was truncated); both dial the same joinPort(host, port). The other
+    transports have one. *)
+Inductive netw := NetUdp | NetTcp.
+
+Definition dial_sites (t : target) : list (netw * str * N) :=
+  match t_transport t with
+  | TUdp => [(NetUdp, t_host t, t_port t); (NetTcp, t_host t, t_port t)]
+  | TTcp | TTls | THttps => [(NetTcp, t_host t, t_port t)]
+  | TH3 | TQuic => [(NetUdp, t_host t, t_port t)]
+  end.
+
 (** ** Opt.Bootstrap: a plain DNS server that resolves the host *)
 
 (** parseBootstrapAp accepts: an IP literal with an optional port *)
